@@ -235,6 +235,11 @@ template<typename FwdSk>
 void quantiles_sketch<T, C, A>::merge(FwdSk&& other) {
   if (other.is_empty()) {
     return; // nothing to do
+  } else if (static_cast<const void*>(&other) == static_cast<const void*>(this)) {
+    // merging a sketch into itself: the base buffer and levels change while they are read, so use a snapshot
+    quantiles_sketch copy(other);
+    merge(std::move(copy));
+    return;
   } else if (!other.is_estimation_mode()) {
     // other is exact, stream in regardless of k
     for (auto item : other.base_buffer_) {
